@@ -65,7 +65,7 @@ theorem step_creates {st : St} (hinv : Inv st) {op : Op} (hc : op.creating = tru
     | some s =>
       simp only
       split
-      · exact Creates.err rfl
+      · split <;> exact Creates.err rfl
       · exact scaleSig_creates _ (hinv.wf k s hs)
   | imul k q => simp [Op.creating] at hc
   | idiv k q => simp [Op.creating] at hc
